@@ -1,6 +1,6 @@
 """C14 — encodings round-trip, are canonical, respect capacities (ASN.1/DER primitives, hex,
 base64, time strings, SM2 signature DER)."""
-import calendar
+import calendar, os
 from vlib import core
 from vlib.core import hexs
 from vlib.codec_common import der_len, tlv, der_uint, b128, mutate, compare, key_hints, sm2_pub_bytes, sm2_octets_ok, SM2_N, SM2_P
@@ -65,6 +65,20 @@ def gen(ctx):
             add("anyD %s" % hexs(e + r.bytes(r.below(3))), "anyD:valid")
             add("typD %d %s" % ((tag + 1) & 255, hexs(e)), "typD:tag-mismatch")
     add("typE 4 NULL", "typE:null")
+    # every encoder that emits a length: content sizes around 2^8 and 2^16 (the 2- and 3-octet length forms)
+    for n in (254, 255, 256, 257, 65534, 65535, 65536, 65537):
+        d = r.bytes(n)
+        cell = "len2^%d%+d" % ((8, n - 256) if n < 1000 else (16, n - 65536))
+        add("typE 48 %s" % hexs(d), "typE:" + cell)
+        add("typD 48 %s" % hexs(tlv(0x30, d)), "typD:" + cell)
+        add("anyD %s" % hexs(tlv(4, d)), "anyD:" + cell)
+        add("intE 2 %s" % hexs(b"\x01" + d[1:]), "intE:" + cell)
+        add("intD 2 %s" % hexs(tlv(2, b"\x01" + d[1:])), "intD:" + cell)
+        add("boctE 3 %s" % hexs(d[:-1]), "boctE:" + cell)
+        add("boctD 3 %s" % hexs(tlv(3, b"\0" + d[:-1])), "boctD:" + cell)
+        add("bstrE 3 %s %d" % (hexs(d[:-1]), 8 * (n - 1)), "bstrE:" + cell)
+        add("strE ia5 22 %s" % hexs(bytes(65 + (x % 26) for x in d)), "strE:" + cell)
+        add("strD ia5 22 %s" % hexs(tlv(22, bytes(65 + (x % 26) for x in d))), "strD:" + cell)
     for op in ("typD 4", "netD 4", "anytD", "anyD"):
         add("%s -" % op, op.split()[0] + ":empty-input")
     base = tlv(4, r.bytes(140))
@@ -252,6 +266,10 @@ def gen(ctx):
         for utc in (1, 0):
             add("timeS %d %d" % (utc, t), "timeS:%s:boundary" % ("utc" if utc else "gen"))
             add("timeE %d %d %d" % (utc, 23 if utc else 24, t), "timeE:%s:boundary" % ("utc" if utc else "gen"))
+    for t in (-2, -5, -59, -60, -61, -3599, -3600, -86399, -86400, -86401, -10 * 86400, -31 * 86400, -365 * 86400, -2**31, -2**31 - 1, -2**40) + tuple(-r.below(2**33) - 2 for _ in range(6 * K)):
+        for utc in (1, 0):                     # signed time_t: negative time stamps other than the marker -1
+            add("timeS %d %d" % (utc, t), "timeS:%s:negative" % ("utc" if utc else "gen"))
+            add("timeE %d %d %d" % (utc, 23 if utc else 24, t), "timeE:%s:negative" % ("utc" if utc else "gen"))
     add("timeE 1 23 -1", "timeE:utc:absent")
     add("timeE 0 24 -1", "timeE:gen:absent")
     import time as _t
@@ -502,6 +520,14 @@ def gen_composite(ctx, harness):
         add("p8eD %s" % hexs(v), "p8eD:malformed")
     mut("kdfpD", [kdf_params(salt, 3, 16, 30), kdf_params(salt, 3)], 25)
     mut("p8eD", [good, p8e_der(salt, 3, None, None, 20, bytes(16), r.bytes(16))], 40)
+    # sibling-OID substitution in every OID-dispatching composite decoder (an OID comparison that looks at a prefix only)
+    from vlib.codec_common import oid_siblings
+    sib_targets = [("prfD", tlv(0x30, oid_der(30))), ("kdfaD", tlv(0x30, oid_der("pbkdf2") + kdf_params(salt, 3, 16, 30))), ("kdfpD", kdf_params(salt, 3, 16, 30)),
+                   ("p2aD", good[3:3 + 2 + good[4]]), ("p8eD", good), ("pkalgD", tlv(0x30, oid_der(10) + oid_der(1))), ("pkalgD", tlv(0x30, oid_der(11) + b"\x05\x00")),
+                   ("encalgD", tlv(0x30, oid_der(20) + tlv(4, bytes(16)))), ("p2eD", tlv(0x30, oid_der(20) + tlv(4, bytes(16)))), ("curveD", oid_der(1)), ("sm2algD", tlv(0x30, oid_der(10) + oid_der(1)))]
+    for op, v in sib_targets:
+        for kind, m_ in oid_siblings(r, v, 24 * K):
+            add("%s %s" % (op, hexs(m_)), op + ":" + kind.split("-high")[0])
     mut("p2aD", [good[3:3 + 2 + good[4]]], 25)
 
     # ---- SM2 ciphertext
@@ -727,6 +753,16 @@ def gen_composite(ctx, harness):
 
 def run(ctx):
     ctx.check_proofs()
+    # the OID tables of the models are generated from the library sources: the tree under check must still have the tables
+    # the theorems were proved about (regenerate with vlib/oid_tables.py write_if_changed and re-run when the library changes)
+    from vlib import oid_tables
+    try:
+        cur = oid_tables.render()
+    except Exception as e:
+        cur = "cannot parse: %r" % (e,)
+    if cur != open(os.path.join(core.COQ, "Codec", "OidTables.v")).read():
+        ctx.violation("correspondence:oid-tables", "the OID tables in the library sources differ from coq/Codec/OidTables.v (generated copy the theorems are about)",
+                      {"kind": "correspondence", "log": cur[:2000]}, False)
     model, log = core.build_model("C14")
     if model is None:
         ctx.violation("correspondence:model-build", "extracted model does not build: " + log[-500:], {"kind": "correspondence", "log": log[-3000:]}, False)
@@ -735,8 +771,8 @@ def run(ctx):
     if exe0 is None:
         core.harness_build_failed(ctx, log)
         return finish(ctx)
-    from vlib import codec_x509, codec_sm9
-    cases = gen(ctx) + gen_composite(ctx, exe0) + codec_x509.gen_x509(ctx) + codec_sm9.gen_sm9(ctx, exe0)
+    from vlib import codec_x509, codec_sm9, codec_crl, codec_cms
+    cases = gen(ctx) + gen_composite(ctx, exe0) + codec_x509.gen_x509(ctx) + codec_sm9.gen_sm9(ctx, exe0) + codec_crl.gen_crl(ctx) + codec_cms.gen_cms(ctx)
     lines = [c[0] for c in cases]
     mout, _ = core.run_lines(model, lines)
     for v in (["asan"] if ctx.tier == "quick" else ["asan", "fast"]):
@@ -754,12 +790,14 @@ def finish(ctx):
     ctx.assumptions = [
         "decoder models take the bytes from the C pointer to the end of the buffer and identify *inlen with the length of that list; the pairing of pointer and length updates is checked by the `consumed` field compared on every case",
         "Fixed = the code after the patches proposed for the listed defects; the theorems are about Fixed; a case on which the tree still behaves like AsIs is reported as VIOLATION defect:<name>",
-        "time_t is modelled for t >= 0 (and the marker -1); negative time stamps are not guarded by the C code and are outside the property's range",
+        "time_t is signed: asn1_time_to_str / the DER time writers are modelled over Z (time_to_str_z / time_to_der_z); a negative time stamp other than the marker -1 must be refused (defect:time_neg)",
+        "OID tables of the AlgorithmIdentifier / extension / CMS models are generated from the library sources (vlib/oid_tables.py -> Codec/OidTables.v) and carry the library's enum values",
+        "SM9 key containers: point validity on G1 / the twist is a parameter of the models, supplied per case by the library's own point decoders (hints G1=/G2=): the correspondence covers the decoder structure, not the SM9 curve arithmetic",
         "key models are parametric in [d]G (pub_of), curve membership (pt_ok), PBKDF2 (kdf) and SM4-CBC (cbcdec); the wrong-password clause is the structural theorem C14_encrypted_key_open_sound; that no second password satisfies it is cryptographic",
         "every decoder out-parameter is pre-filled with a poison value by the harness and printed, on success and on the 'absent' answer",
         "lengths above INT_MAX and 4-byte DER lengths with matching content (>= 16 MiB) are not exercised at run time",
     ]
     return ctx.finish(level="proof",
                       rule="cases = per-type value boundaries (length octet counts, sign/minimality of integers, all 256 boolean/char values, arc septet counts, node/element counts at capacity-1/capacity/capacity+1, UTF-8 classes, calendar boundaries, 48-byte line and 64-char block boundaries, every 2-way split of three base64 texts) + mutated valid encodings + malformed literals; a cell = (op, class, ok|ERR|ABSENT|FAULT); distinct_nontrivial = cells on which implementation and Fixed model agreed",
-                      trusted=core.TRUSTED_COMMON + ["Coq files: Codec/Der.v Hex.v Base64.v Time.v Pkcs.v Pem.v PkcsInst.v (models; PkcsInst imports Hash/ PBKDF2 and Cipher/ SM4-CBC read-only), Codec/*Proofs.v PkcsOpen.v (proofs), Props/Properties_C14.v", "python SM2 point arithmetic in vlib/codec_common.py supplies [d]G and the on-curve verdict to the key models (hints H=/P=); PBKDF2 with 65536 iterations is taken from the harness (hint K=) for the library-made encrypted keys",
+                      trusted=core.TRUSTED_COMMON + ["Coq files: Codec/Der.v Hex.v Base64.v Time.v Pkcs.v Pem.v PkcsInst.v OidTables.v (generated) X509.v Crl.v Cms.v Sm9Key.v (models; PkcsInst imports Hash/ PBKDF2 and Cipher/ SM4-CBC read-only), Codec/*Proofs.v PkcsOpen.v (proofs), Props/Properties_C14.v", "python SM2 point arithmetic in vlib/codec_common.py supplies [d]G and the on-curve verdict to the key models (hints H=/P=); PBKDF2 with 65536 iterations is taken from the harness (hint K=) for the library-made encrypted keys",
                                                      "vlib/codec_common.py (comparison and defect attribution)"])
